@@ -931,6 +931,7 @@ pub fn run(ctx: &Ctx) -> Report {
     rep.merge(prep);
     if ctx.variant == "v3" && ctx.only_panel.as_deref().map(|p| p == "epd12in48b_v2").unwrap_or(true) {
         crate::props::p12checks::c01(&mut rep, ctx.tier_thorough);
+        crate::props::p12checks::c01_busy(&mut rep, ctx.tier_thorough);
     }
     rep
 }
